@@ -21,14 +21,15 @@ After each commit or rollback (outer or savepoint), for every tracked object:
 After every other operation (3) is still evaluated; a difference there is a
 flush-content matter (C30) and only cuts the branch.
 
-Findings on the unchanged tree: (a) a primary key switched in the outer
-transaction and switched again inside a savepoint that is then released: the
-release overwrites the outer transaction's record of the *original* key
+Defects this check found on the original tree (fixed in /repo by 56b31db,
+b96aaaf, 21e8961, 7fe5e03): (a) a primary key switched in the outer
+transaction and switched again inside a savepoint that was then released: the
+release overwrote the outer transaction's record of the *original* key
 (`_remove_snapshot`: `parent._key_switches.update(self._key_switches)`), so an
-outer rollback restores the wrong identity key and the object can no longer be
-loaded; (b) with expire_on_commit=False a flushed-deleted object stays in the
-"deleted" state after commit; (c) close() leaves flushed-deleted objects in
-the "deleted" state (same root causes as C35's findings).
+outer rollback restored the wrong identity key and the object could no longer
+be loaded; (b) with expire_on_commit=False a flushed-deleted object stayed in
+the "deleted" state after commit; (c) close() left flushed-deleted objects in
+the "deleted" state; (d) the stale ``_deleted`` flag of C35.
 
 Mutations caught (private copy, `VF_REPO=/tmp/wt-orm1 ./check C33`):
  * session.py `_restore_snapshot`: `s.key = oldkey` dropped (`_key_switches`
